@@ -1,5 +1,8 @@
 /-
-C15 — defect D14 and the gzip data-error defect, on the model of the code **as it was before** fix commits `8eb5186` /
+C15 — (1) at the end of the file: the **current** tree accepts damaged compressed input whose damage lies behind the point where the
+tar reader stops reading (`stopping_reader_misses_the_error`; finding `unread-tail-accepted:*`, repair proposal
+`fixes/C15-drain-compressed-input.patch`);
+(2) defect D14 and the gzip data-error defect, on the model of the code **as it was before** fix commits `8eb5186` /
 `7b3a56e` of /repo (= without `fixes/C15-xfrm-flush-eof.patch` / `fixes/C15-gzip-data-error.patch`; `Sqfs/Model/XfrmOld.lean`;
 `istream.c` and `ostream.c` are the same in both trees).  Each theorem is the negation of a clause of the property, with a concrete
 witness; the same inputs are replayed on the real code by the check (fake-library harness and tool-level runs).
@@ -8,6 +11,7 @@ restrictive knobs (one byte in, one byte out per library call).
 -/
 import Sqfs.Model.XfrmOld
 import Sqfs.Proofs.Xfrm
+import Sqfs.Props.C15
 namespace Sqfs.C15.Witness
 open Sqfs.Xfrm
 
@@ -122,5 +126,33 @@ theorem old_gzip_data_error_spins :
 /-- xz.c and bzip2.c (and the repaired gzip.c) return `XFRM_STREAM_ERROR` -/
 example : (Old.wrapProcess (Toy.decLib P0) Backend.xz false (Toy.decLib P0).init [7] 4 Flush.none).map (·.res) = some Res.error := by decide
 example : (wrapProcess (Toy.decLib P0) Backend.gzip false (Toy.decLib P0).init [7] 4 Flush.none).map (·.res) = some Res.error := by decide
+
+/-! ### the current tree: a reader that stops does not see the error (finding `unread-tail-accepted:*`)
+
+The wrappers and backends below are the **current** ones (`Sqfs/Model/Xfrm.lean`).  The stream holds the members `ABC`, `DE` and
+then dead bytes (a malformed marker); the wrapper's buffer has 5 bytes.  The reader takes the five content bytes in two rounds —
+that is all it wants, like the tar reader of `lib/tar/src/read_header.c` once it has seen the end-of-archive marker — and stops:
+it has been given no error and no end-of-stream, and `tar2sqfs` exits 0.  Had it read on, it would have got
+`SQFS_ERROR_COMPRESSOR` (the general statement is `Sqfs.C15.corrupt_is_error_for_draining_reader`).  With real codecs the dead bytes
+are e.g. a gzip trailer whose CRC does not match (damaged contents already handed out), or a cut-off trailer; replayed on the real
+`tar2sqfs` by the check (class `beyond-end-marker`). -/
+
+def deadStream : Bytes := Toy.encode [65, 66, 67] ++ Toy.encode [68, 69] ++ [2, 9, 9]
+
+theorem stopping_reader_misses_the_error :
+    Dead Toy.decode [2, 9, 9] ∧
+    -- toy codec directly under `istream_xfrm`
+    (iRead (Toy.decoder ⟨1, 0, 2⟩) 5 1000 (iInit (Toy.decoder ⟨1, 0, 2⟩) ⟨deadStream, [1, 0, 2, 1, 3]⟩) [(3, 3), (2, 2)] []).map
+      (fun r => r.map (fun t => (t.2.1, t.2.2))) = some (.ok ([65, 66, 67, 68, 69], false)) ∧
+    iRead (Toy.decoder ⟨1, 0, 2⟩) 5 1000 (iInit (Toy.decoder ⟨1, 0, 2⟩) ⟨deadStream, [1, 0, 2, 1, 3]⟩) ([(3, 3), (2, 2)] ++ drainOps 5 9) [] =
+      some (.error errCompressor) ∧
+    -- the same through the (current) gzip/xz/bzip2 `process_data` loop over the toy library
+    (iRead (wrapCodec (Toy.decLib ⟨1, 0, 2⟩ Backend.gzip) Backend.gzip false) 5 1000
+        (iInit (wrapCodec (Toy.decLib ⟨1, 0, 2⟩ Backend.gzip) Backend.gzip false) ⟨deadStream, [1, 0, 2, 1, 3]⟩) [(3, 3), (2, 2)] []).map
+      (fun r => r.map (fun t => (t.2.1, t.2.2))) = some (.ok ([65, 66, 67, 68, 69], false)) ∧
+    iRead (wrapCodec (Toy.decLib ⟨1, 0, 2⟩ Backend.gzip) Backend.gzip false) 5 1000
+        (iInit (wrapCodec (Toy.decLib ⟨1, 0, 2⟩ Backend.gzip) Backend.gzip false) ⟨deadStream, [1, 0, 2, 1, 3]⟩) ([(3, 3), (2, 2)] ++ drainOps 5 9) [] =
+      some (.error errCompressor) :=
+  ⟨Sqfs.C15.toy_dead_example [9, 9], by decide, by decide, by decide, by decide⟩
 
 end Sqfs.C15.Witness
